@@ -92,6 +92,7 @@ def run(ctx):
     mask_rule(ctx, prog)
     bound_compare_rule(ctx, prog)
     folded_filter_rule(ctx, prog)
+    bound_arithmetic_rule(ctx, prog)
 
 
 def mask_rule(ctx, prog):
@@ -247,3 +248,33 @@ def folded_filter_rule(ctx, prog):
            [site(b, c.bb) for c in nodes] or [b.loc],
            what='the Scan arm derives the storage filter only from the range analysis of the filter expression: a condition folded to '
                 '`false` has no range and the whole table is returned (`select a from t where a > 5 and a < 3` on a primary key)')
+
+
+def bound_arithmetic_rule(ctx, prog):
+    """C13-R7: no saturating / wrapping arithmetic on a key bound"""
+    R7 = 'C13-R7'
+    ctx.rule(R7, 'a key-range bound is never recomputed with saturating or wrapping arithmetic: rewriting `key > k` as `key >= k + 1` is only '
+                 'an identity while k + 1 does not saturate; at the type\'s limit the empty range becomes a point range')
+    n = 0
+    for b in prog.bodies.values():
+        if not re.match(r'^<?(storage|planner::rules::range|executor)::', b.name):
+            continue
+        payload = set()
+        for bb, st in b.stmts():
+            if st['s'] == 'assign' and any(any(x in ('as:Included', 'as:Excluded') for x in pl['p']) for pl in operand_places(st['rv'])):
+                payload.add(st['lhs']['l'])
+        if not payload:
+            continue
+        n += 1
+        for c in b.calls:
+            if not re.search(r'::(saturating_add|saturating_sub|wrapping_add|wrapping_sub)$', c.fn or ''):
+                continue
+            hit = any(a['k'] != 'const' and payload & origin_locals(b, a['pl']['l'], depth=10) for a in c.args)
+            if hit:
+                ctx.functions_analysed.add(b.name)
+                ctx.ob(R7, f'{b.root}·saturating-arithmetic-on-a-bound', False,
+                       f'{b.name}: {c.fn} at block {c.bb} is applied to a value taken out of a Bound', [site(b, c.bb)],
+                       what=f'{b.root} recomputes a range bound with {c.fn.rsplit("::", 1)[-1]}: at the limit of the key type the rewritten '
+                            'range selects rows the predicate excludes (`a > 2147483647` returns the i32::MAX row)')
+    ctx.ob(R7, 'bounds·no-saturating-arithmetic', True, f'{n} functions that take a value out of a Bound examined', nontrivial=False)
+    ctx.floor(R7, n, 3, 'functions that take a value out of a Bound')
